@@ -1,8 +1,9 @@
 """C07 - every incoming get/set IQ is answered exactly once; replies are never answered.
 A: TLC design check of the reply part of tla/ServeLoop.tla; B: TLC evaluates the reference
-function C07_Replies on (element x handler program x mode) vectors, each followed by a sentinel
-request; C: one real served session per vector, the parsed output must be one of the acceptable
-outputs."""
+function C07_Replies on (session kind x element (type, id, from, to, namespace, payload) x
+handler program x mode) vectors, each followed by a sentinel request; C: one real served session
+per vector (TCP client / server, WebSocket, received, library-negotiated with binding), the
+parsed output must be one of the acceptable outputs."""
 import json
 
 import verif
@@ -29,11 +30,11 @@ def run(ctx):
     mc1 = ctx.model_check("MCServeLoop", sc.c07_mc_cfg("C7ItemsMC"), sc.C07_INVS, workers=4, timeout=600, name="MCServeLoop_c07")
     mc2 = ctx.model_check("MCServeLoop", sc.c07_mc_cfg("C7ItemsSeq", length=2), sc.C07_INVS, workers=4, timeout=600,
                           name="MCServeLoop_c07seq")
-    res = sc.emit_parallel(ctx, "EmitServeLoop", [sc.serve_emit_cfg(ctx.tier, "c07")])
+    res = sc.emit_parallel(ctx, "EmitServeLoop", sc.serve_emit_cfgs(ctx, "c07", 4 if quick else 6))
     vecs = sc.collect(res, r"c07_vectors_\d+\.ndjson")
     nvec = sum(1 for f in vecs for _ in open(f))
     ctx.log("TLC emitted %d vectors" % nvec)
-    summ = sc.run_driver(ctx, "reply", [out] + vecs)
+    summ = sc.run_driver_files(ctx, "reply", out, vecs)
     mism = verif.read_ndjson(out)
     ctx.log("driver: %d served sessions, %d mismatches, %d stalls; %d sessions ended with an error, %d <stream:error/> elements on the wire" % (
         summ["evaluations"], summ["mismatches"], summ["stalls"], summ["terminated_with_error"], summ["stream_error_elements_on_wire"]))
@@ -41,6 +42,9 @@ def run(ctx):
         stalled = [m for m in mism if m["kind"] == "stall"]
         raise verif.Undecided("%d sessions did not finish within the watchdog (not a verdict): %s" % (
             summ["stalls"], json.dumps(stalled[0])[:400]))
+    if summ["setup_failures"]:
+        raise verif.Undecided("%d sessions could not be made as the specification describes them (not a verdict): %s" % (
+            summ["setup_failures"], [m for m in mism if m["kind"] == "setup"][0]["why"][:400]))
     sc.report_grouped(ctx, [m for m in mism if m["kind"] == "reply"], signature, describe)
     nself = selftest(ctx, vecs)
     # requests from the peer whose id collides with a pending request of our own (concurrent with
@@ -74,32 +78,43 @@ def run(ctx):
         "sessions_ended_with_error": summ["terminated_with_error"],
         "stream_error_elements_on_wire": summ["stream_error_elements_on_wire"],
         "binding_selftest_corruptions_rejected": nself,
-        "exhaustive": ("quick: every (iq type, id, handler writes, return, mode) x 12 derived (from, payload, read, namespace) "
-                       "combinations + other stanzas" if quick else
-                       "full product iq type(6) x id(4) x from(3) x payload(4) x read(4) x writes(12) x return(2) x mode(3) x namespace(2) + other stanzas"),
-        "rule": "every vector is one real session: header, element under test, sentinel request, closing tag; distinct = "
-                "(kind, type, mode, number of output elements, error) classes; non-trivial = something was written",
+        "exhaustive": ("quick: every (iq type, id, handler writes, return, mode) x 30 derived combinations: every (session kind(6: "
+                       "initiated c2s / s2s, WebSocket, received c2s / s2s, library-negotiated c2s with binding), from(5: none, own bare, "
+                       "own full, other entity, server)) pair x rotating (to(3), namespace(own / the other stanza namespace), payload(4), "
+                       "read(4)) + other stanzas on every session kind" if quick else
+                       "full product iq type(6) x id(4) x payload(4) x read(4) x writes(12) x return(2) x mode(3) x 15 derived "
+                       "(session kind(6), from(5), to(3), namespace(2)) combinations + other stanzas on every session kind"),
+        "rule": "every vector is one real session: negotiation, element under test, sentinel request, closing tag (WebSocket: end of "
+                "transport); distinct = (session kind, element kind, type, mode, number of output elements, error) classes; "
+                "non-trivial = something was written",
         "samples": summ["samples"][:3],
     }, assumptions=[
         "'terminated with a stream error' is observed as: Serve returns an error and handles nothing more (on this tree the "
         "<stream:error/> element never reaches the wire: sendError does not flush before the closing tag; the repository's "
         "serve tests expect that output)",
         "handler-written stanzas without id get a fresh id from the session (C05); ids of such elements are not compared",
-        "no pending requests of the session's own (C06 covers reply hand-off)"])
+        "no pending requests of the session's own (C06 covers reply hand-off)",
+        "a get/set iq qualified by the other stanza namespace (jabber:server on a client stream and vice versa) is an incoming IQ "
+        "of the property's quantifier ('client or server namespace'); whether a multiplexer made for the stream's namespace hands it "
+        "to a registered handler is left open",
+        "WebSocket sessions end with the end of the transport (the framing's closing element is outside C07)"])
 
 
 def signature(m):
     v = m["vector"]
     needs = v["e"]["kind"] == "iq" and v["e"]["type"] in ("get", "set") and v["e"]["id"] not in ("none", "")
     return (v["mode"] != "plain", v["e"]["kind"], needs, v["e"]["payload"] == "none", v["p"]["w"] in ("notype", "bogustype"),
-            v["p"]["ret"], bool(m.get("serve_error")), bool(m.get("panic")), m.get("unread", 0) > 0)
+            v["p"]["ret"], bool(m.get("serve_error")), bool(m.get("panic")), m.get("unread", 0) > 0,
+            v["hdrdiffers"], v["e"]["from"] in ("none", "own"))
 
 
 def describe(m):
     v = m["vector"]
-    return ("served %s with handler program %s (mode %s, %s namespace): wire %s, Serve returned %r%s; acceptable per "
-            "ServeLoop!C07_Replies: %s" % (
-                m["input"][:260], json.dumps(v["p"]), v["mode"], v["ns"], m["wire"][:400], m.get("serve_error"),
+    s = v["sess"]
+    return ("served %s with handler program %s (mode %s; session %s made by %s negotiator, header names %s address%s; element in the "
+            "%s namespace): wire %s, Serve returned %r%s; acceptable per ServeLoop!C07_Replies: %s" % (
+                m["input"][:260], json.dumps(v["p"]), v["mode"], s["kind"], s["neg"], s["hdr"], ", bound" if s["bind"] else "",
+                v["ens"], m["wire"][:400], m.get("serve_error"),
                 (" PANIC " + m["panic"]) if m.get("panic") else "", json.dumps(v["acc"])[:400]))
 
 
@@ -107,10 +122,10 @@ def selftest(ctx, vecs):
     """corrupt expectations: drop the default reply from an acceptable output, demand a second one,
     demand a stream error; the driver must reject all three and accept the original."""
     base = None
-    for l in open(vecs[0]):
+    for l in (l for f in vecs for l in open(f)):
         v = json.loads(l)
         if (v["mode"] == "plain" and v["p"]["w"] == "none" and v["p"]["ret"] == "ok" and v["e"]["type"] == "get"
-                and v["e"]["id"] == "a" and len(v["acc"]) == 1 and v["acc"][0][0][0] == "su"):
+                and v["e"]["id"] == "a" and v["e"]["from"] == "peer" and len(v["acc"]) == 1 and v["acc"][0][0][0] == "su"):
             base = v
             break
     if base is None:
@@ -119,13 +134,18 @@ def selftest(ctx, vecs):
     m1 = json.loads(json.dumps(base)); m1["acc"] = [base["acc"][0][1:]]
     m2 = json.loads(json.dumps(base)); m2["acc"] = [[su, su] + base["acc"][0][1:]]
     m3 = json.loads(json.dumps(base)); m3["acc"] = [[su, ["serr"]]]
+    # the addressee: the request's own addressee, nobody
+    m4 = json.loads(json.dumps(base)); m4["acc"] = [[[su[0], su[1], "ownfull"]] + base["acc"][0][1:]]
+    m5 = json.loads(json.dumps(base)); m5["acc"] = [[[su[0], su[1], "none"]] + base["acc"][0][1:]]
     vf, of = ctx.path("self7.ndjson"), ctx.path("self7_out.ndjson")
-    open(vf, "w").write("".join(json.dumps(x) + "\n" for x in (base, m1, m2, m3)))
+    open(vf, "w").write("".join(json.dumps(x) + "\n" for x in (base, m1, m2, m3, m4, m5)))
     sc.run_driver(ctx, "reply", [of, vf])
     lines = {m["line"] for m in verif.read_ndjson(of)}
     if 1 in lines and not ctx.violations:
         raise verif.Undecided("binding self-test: the unchanged vector was rejected")
-    missed = [l for l in (2, 3, 4) if l not in lines]
-    if missed:
+    missed = [l for l in (2, 3, 4, 5, 6) if l not in lines]
+    if missed and not ctx.violations:
         raise verif.Undecided("binding self-test: corrupted expectations ACCEPTED (lines %s)" % missed)
-    return 3
+    if missed:   # the tree under test already violates the property in the very way a corruption describes
+        ctx.log("binding self-test: corrupted expectations %s match the (violating) behaviour of this tree" % missed)
+    return 5 - len(missed)
